@@ -75,24 +75,35 @@ def isolation_violations(rec):
 
 
 def rerun_overwrite(name, sync_val, o):
-    """Classifier for the known finding: the async runner lets a sibling of the
-    failing node finish; that sibling is a *re-run* (it ran earlier on a fallback
-    value) and overwrites the value the sync partial result still shows."""
-    results = []
-    for e in o.rec.ev:
-        if e[0] == "exit":
-            ts = []
-            terms_in(e[2], ts)
-            if isinstance(e[2], list):
-                ts.append(e[2])
-            results.append((e[1], ts, e[2]))
-    hits = [fid for fid, ts, raw in results if sync_val in ts or raw == sync_val]
-    if not hits:
+    """Classifier for the known finding: in the failing step the async runner lets a sibling of
+    the failing node finish, and that sibling writes the same value name again (a node re-running
+    on the edge value after a first run on a fallback, or another exclusive producer of the name
+    that started early under an undecided default-open gate); the sync runner stopped at the
+    failing node and still shows the earlier value."""
+    last_step = max((i for i, e in enumerate(o.rec.ev) if e[0] == "step" and e[1] == _top_run(o.rec)), default=None)
+    if last_step is None:
         return False
-    fid = hits[0]
-    runs = [r for r in results if r[0] == fid]
     cur = o.values.get(name)
-    return len(runs) >= 2 and (cur in runs[-1][1] or runs[-1][2] == cur) and not (sync_val in runs[-1][1] or runs[-1][2] == sync_val)
+
+    def produced_at(val):
+        idx = []
+        for i, e in enumerate(o.rec.ev):
+            if e[0] == "exit":
+                ts = []
+                terms_in(e[2], ts)
+                if e[2] == val or val in ts:
+                    idx.append(i)
+        return idx
+
+    a, b = produced_at(sync_val), produced_at(cur)
+    return bool(a) and bool(b) and min(a) < last_step and max(b) > last_step and sync_val != cur
+
+
+def _top_run(rec):
+    for e in rec.ev:
+        if e[0] == "run_begin" and e[3] is None:
+            return e[1]
+    return None
 
 
 def run_variants(ctx, fam, spec, inputs, kw):
@@ -199,7 +210,7 @@ def compare(ctx, fam, spec, inputs, outs, failing_fid=None):
                 for k, v in piv.values.items():
                     if k not in o.values or o.values[k] != v:
                         if k in o.values and rerun_overwrite(k, v, o):
-                            key = "C02:partial:rerun-sibling-overwrites"
+                            key = "C02:partial:failing-step-sibling-overwrites"
                         else:
                             key = "C02:partial"
                         ctx.violation(key, f"{label}: sync partial value {k}={core.short(v)} missing/different in async partial result ({core.short(o.values.get(k, '<absent>'))})", {**case, "variant": label})
